@@ -152,3 +152,62 @@ Definition rres_of (r : crres) : rres := match r with CData d => RData (expand d
 Definition run_legacy (conn : list bool) (recv : list crres) (send : list bool) (subs : list bytes) (stop_after : option nat)
                       (fuel : nat) : list N :=
   canon_lev (rev (ltrace (lrun fuel (linit conn (map rres_of recv) send subs stop_after)))) None.
+
+(* ---- per-property projections of the session observation (C11: what is written and what is wanted; C12: what is
+   handed over; C13: connection attempts, close() and the phases) --------------------------------------------- *)
+Definition show_aconn11 (ident secret : bytes) (c : aconn) : string :=
+  join ","%string (canon_frames (rendered ident secret (rev (cout c))) None).
+Definition show11 (ident secret : bytes) (s : asess) : string :=
+  (match cur s with Some k => show_nat k | None => "-"%string end ++ "|" ++
+   show_N (fold_left (fun a x => (a + adler x) mod 4294967296)%N (wanted s) 0%N) ++ "|" ++
+   join ";"%string (map (show_aconn11 ident secret) (conns s)))%string.
+Definition show12 (s : asess) : string :=
+  ("{" ++ show_N (fold_left (fun a m => (a + adler_str (show_msg m)) mod 4294967296)%N (delivered s) 0%N) ++ "}" ++
+   join ","%string (map show_msg (queue s)) ++ "|" ++ show_nat (List.length (delivered s)) ++ "," ++ show_nat (waiting s))%string.
+Definition show13 (s : asess) : string :=
+  (show_nat (attempts s) ++ "|" ++ bit' (pend s && match outcome s with None => true | _ => false end) ++ "|" ++
+   bit' (closing s) ++ bit' (wc_done s) ++ "|" ++ match cst s with CNone => "n" | CDone => "d" | _ => "p" end ++ "|" ++
+   join ""%string (map (fun c => bit' (cclosing c)) (conns s)) ++ "|" ++ show_nat (raised s))%string.
+Definition obs3 (ident secret : bytes) (s : asess) : list N :=
+  [adler_str (show11 ident secret s); adler_str (show12 s); adler_str (show13 s)].
+Fixpoint run_aio3_from (ident secret : bytes) (s : asess) (es : list caev) : list N :=
+  match es with [] => [] | e :: t => let s' := astep ident secret s (aev_of e) in obs3 ident secret s' ++ run_aio3_from ident secret s' t end.
+Definition run_aio3 (ident secret : bytes) (es : list caev) : list N := run_aio3_from ident secret asess0 es.
+Fixpoint run_tw3_from (ident secret : bytes) (s : asess) (es : list caev) : list N :=
+  match es with
+  | [] => []
+  | e :: t => let s' := match tev_of e with Some te => tstep ident secret s te | None => s end in
+              obs3 ident secret s' ++ run_tw3_from ident secret s' t
+  end.
+Definition run_tw3 (ident secret : bytes) (es : list caev) : list N := run_tw3_from ident secret asess0 es.
+
+(* legacy Client: which = 11 keeps the handshake/subscription events and marks callbacks without their content;
+   12 keeps connections and callbacks with content; 13 keeps attempts, sleeps, connections, callbacks marks and how run() ended *)
+Definition proj_lev (which : nat) (e : lev) : option string :=
+  let mark := match e with LMsg _ _ _ | LErrMsg _ => Some "cb"%string | _ => None end in
+  match which with
+  | 11%nat => match e with
+          | LConnected _ | LSentAuth _ _ | LSentSub _ _ | LSendFailed _ => Some (show_lev e)
+          | _ => mark end
+  | 12%nat => match e with LConnected _ | LMsg _ _ _ | LErrMsg _ => Some (show_lev e) | _ => None end
+  | _ => match e with
+         | LAttempt | LConnected _ | LSleep | LReturn | LCrash | LScriptEnd => Some (show_lev e)
+         | _ => mark end
+  end.
+Fixpoint canon_proj (which : nat) (l : list lev) (run : option N) : list N :=
+  match l with
+  | [] => match run with Some n => [n] | None => [] end
+  | e :: t =>
+      match proj_lev which e with
+      | None => canon_proj which t run
+      | Some str =>
+          if is_lsub e then canon_proj which t (Some ((match run with Some n => n | None => 7%N end + adler_str str) mod 4294967296)%N)
+          else match run with
+               | Some n => n :: adler_str str :: canon_proj which t None
+               | None => adler_str str :: canon_proj which t None
+               end
+      end
+  end.
+Definition run_legacy_proj (which : nat) (conn : list bool) (recv : list crres) (send : list bool) (subs : list bytes)
+                           (stop_after : option nat) (fuel : nat) : list N :=
+  canon_proj which (rev (ltrace (lrun fuel (linit conn (map rres_of recv) send subs stop_after)))) None.
